@@ -67,8 +67,17 @@ def gen_case(st, tier, env):
                         "k": w.choice([2, 0.5, 3, 1])})
     fault = None
     if st.faults.random() < 0.35:
-        fault = {"fail_at": st.faults.randrange(4), "mode": st.faults.choice(["raise", "notsolved"])}
-    return {"dataset": ds, "scheme": scheme, "ops": ops, "solver_fault": fault}
+        fault = {"fail_at": st.faults.choice([0, 0, 1, 1, 2, 3]), "mode": st.faults.choice(["raise", "notsolved"])}
+    # a second dataset and scheme visit the same shared algorithm instances in between (state cached on an instance
+    # or at module level and keyed too coarsely only shows when the inputs change and come back)
+    ds2 = gen.gen_dataset(w, n_max=k.choice([3, 4, 5]), m_max=4)
+    scheme2 = gen.gen_scheme(w, dyadic=True)
+    for op in ops:
+        if w.random() < 0.25:
+            op["ds"] = 1
+        if w.random() < 0.2:
+            op["sc"] = 1
+    return {"dataset": ds, "scheme": scheme, "dataset2": ds2, "scheme2": scheme2, "ops": ops, "solver_fault": fault}
 
 
 def nontrivial(probes):
@@ -117,16 +126,26 @@ def _canon_result(res):
 class World:
     def __init__(self, case, shared: bool):
         self.case, self.shared = case, shared
-        self.ds = build_dataset(case["dataset"]) if shared else None
-        self.sc = build_scheme(case["scheme"]) if shared else None
+        self.dspecs = [case["dataset"], case.get("dataset2") or case["dataset"]]
+        self.sspecs = [case["scheme"], case.get("scheme2") or case["scheme"]]
+        self.dss = [build_dataset(d) for d in self.dspecs] if shared else None
+        self.scs = [build_scheme(x) for x in self.sspecs] if shared else None
         self.algs = {}
         self.consensuses = []  # results of "run" ops that returned, in order
 
-    def dataset(self):
-        return self.ds if self.shared else build_dataset(self.case["dataset"])
+    @property
+    def ds(self):
+        return self.dss[0]
 
-    def scheme(self):
-        return self.sc if self.shared else build_scheme(self.case["scheme"])
+    @property
+    def sc(self):
+        return self.scs[0]
+
+    def dataset(self, which=0):
+        return self.dss[which] if self.shared else build_dataset(self.dspecs[which])
+
+    def scheme(self, which=0):
+        return self.scs[which] if self.shared else build_scheme(self.sspecs[which])
 
     def alg(self, spec):
         if not self.shared:
@@ -137,14 +156,17 @@ class World:
         return self.algs[lab]
 
 
-def _do(world, op, draws_spec, univ):
+def _do(world, op, draws_spec, univ, univ2=()):
     """Execute one op in a world. Returns (kind, canonical result, picks, raw result)."""
     s = sched.Sched.from_spec(draws_spec)
     sched.set_current(s)
     fs = None
     try:
         kind = op["op"]
-        ds, sc = world.dataset(), world.scheme()
+        wd, wsc = op.get("ds", 0), op.get("sc", 0)
+        ds, sc = world.dataset(wd), world.scheme(wsc)
+        if wd:
+            univ = univ2
         if kind == "run":
             okb, alg = call(world.alg, op["alg"])
             if not okb:
@@ -159,6 +181,8 @@ def _do(world, op, draws_spec, univ):
             cons = world.consensuses[op["target"] % len(world.consensuses)]
             if cons is None:
                 return "skipped", None, [], None
+            cons, cwd, cws = cons
+            ds, sc = world.dataset(cwd), world.scheme(cws)  # a consensus is read against its own inputs
             what = op["what"]
             if what == "kemeny_score":
                 ok, res = call(lambda: cons.kemeny_score)
@@ -199,7 +223,7 @@ def _do(world, op, draws_spec, univ):
         elif kind == "get_bucket_ids":
             ok, res = call(ds.get_bucket_ids)
         elif kind == "eq_other":
-            ok, res = call(lambda: ds == build_dataset(world.case["dataset"]))
+            ok, res = call(lambda: ds == build_dataset(world.dspecs[wd]))
         elif kind == "write":
             fs = SimFS()
             fs.install()
@@ -232,7 +256,9 @@ def run_case(case, ctx):
     fresh = World(case, False)
     mr = model.normalise(case["dataset"]["rankings"])
     univ = model.universe(mr)
-    snap0_ds, snap0_sc = snap_dataset(shared.ds), snap_scheme(shared.sc)
+    univ2 = model.universe(model.normalise((case.get("dataset2") or case["dataset"])["rankings"]))
+    snap_all = lambda: ([snap_dataset(d) for d in shared.dss], [snap_scheme(x) for x in shared.scs])
+    snap0_ds, snap0_sc = snap_all()
     ctx.event("world", model.canon(mr), case["scheme"]["B"], case["scheme"]["T"], ctx.env)
     fault = case.get("solver_fault")
     factory = FaultySolverFactory(fault["fail_at"] if fault else None, fault["mode"] if fault else "raise",
@@ -249,7 +275,7 @@ def run_case(case, ctx):
             fired0 = factory.fired
             factory.armed = True
             try:
-                k1, r1, picks, raw1 = _do(shared, op, op.get("sched"), univ)
+                k1, r1, picks, raw1 = _do(shared, op, op.get("sched"), univ, univ2)
             except Discard:
                 ctx.probe("discarded_stub_capacity")
                 return
@@ -260,13 +286,14 @@ def run_case(case, ctx):
             # ---- fresh world (no fault; replay the RNG trace) -------------------------------------------------
             factory.armed = False
             try:
-                k2, r2, picks2, raw2 = _do(fresh, op, {"draws": picks, "fallback": "first", "seed": 0}, univ)
+                k2, r2, picks2, raw2 = _do(fresh, op, {"draws": picks, "fallback": "first", "seed": 0}, univ, univ2)
             except Discard:
                 ctx.probe("discarded_stub_capacity")
                 return
             if kind == "run":
-                shared.consensuses.append(raw1 if k1 == "returned" else None)
-                fresh.consensuses.append(raw2 if k2 == "returned" else None)
+                sel = (op.get("ds", 0), op.get("sc", 0))
+                shared.consensuses.append((raw1,) + sel if k1 == "returned" else None)
+                fresh.consensuses.append((raw2,) + sel if k2 == "returned" else None)
                 if k1 != "returned" or k2 != "returned":
                     # keep the two lists aligned: a read only makes sense when both worlds have the object
                     shared.consensuses[-1] = fresh.consensuses[-1] = None
@@ -281,12 +308,13 @@ def run_case(case, ctx):
                  "index_in_history": i}
             after = "C15/after-peer-fault" if fault_seen else None
             # ---- invariant: inputs untouched ----------------------------------------------------------------------
-            sd, ss = snap_dataset(shared.ds), snap_scheme(shared.sc)
+            sd, ss = snap_all()
             if sd != snap0_ds:
-                diff = [k for k in sd if sd[k] != snap0_ds[k]]
-                ctx.violate(after or "C15/dataset-modified", {"op": label, "changed": diff,
-                                                              "now": {k: sd[k] for k in diff},
-                                                              "was": {k: snap0_ds[k] for k in diff}},
+                w_i = 0 if sd[0] != snap0_ds[0] else 1
+                diff = [k for k in sd[w_i] if sd[w_i][k] != snap0_ds[w_i][k]]
+                ctx.violate(after or "C15/dataset-modified", {"op": label, "dataset": w_i, "changed": diff,
+                                                              "now": {k: sd[w_i][k] for k in diff},
+                                                              "was": {k: snap0_ds[w_i][k] for k in diff}},
                             "the dataset exactly as it was", dict(t, changed=diff[0]), label)
                 ctx.violations[-1]["case_override"] = repro
                 return
@@ -314,7 +342,7 @@ def run_case(case, ctx):
             if kind == "run" and k1 == "returned":
                 factory.armed = False
                 try:
-                    k3, r3, picks3, _ = _do(shared, op, {"draws": picks, "fallback": "first", "seed": 0}, univ)
+                    k3, r3, picks3, _ = _do(shared, op, {"draws": picks, "fallback": "first", "seed": 0}, univ, univ2)
                 except Discard:
                     return
                 ctx.probe("twice_checked")
@@ -324,8 +352,7 @@ def run_case(case, ctx):
                                 "(KwikSort: under the same pivot schedule)", t, label)
                     ctx.violations[-1]["case_override"] = repro
                     return
-                sd = snap_dataset(shared.ds)
-                if sd != snap0_ds or snap_scheme(shared.sc) != snap0_sc:
+                if snap_all() != (snap0_ds, snap0_sc):
                     ctx.violate(after or "C15/dataset-modified", {"op": label + " (second call)"},
                                 "the inputs exactly as they were", t, label)
                     ctx.violations[-1]["case_override"] = repro
